@@ -1203,19 +1203,13 @@ Returns:
 
     def __deepcopy__(self, memo):
         """return a deep copy of the solver"""
-        import copy
         import dill
         cls = self.__class__
         result = cls.__new__(cls)
         memo[id(self)] = result
-        for k, v in self.__dict__.items():
-            if v is self._cost:
-                setattr(result, k, tuple(dill.copy(i) for i in v))
-            else:
-                try: #XXX: work-around instancemethods in python2.6
-                    setattr(result, k, copy.deepcopy(v, memo))
-                except TypeError:
-                    setattr(result, k, dill.copy(v))
+        #NOTE: copy as a whole, so the wrapped cost keeps feeding the
+        #      evaluation counter and evaluation monitor of the copy
+        result.__dict__.update(dill.copy(self.__dict__))
         return result
 
     def _is_new(self):
